@@ -334,12 +334,19 @@ def _freeze(v):
 
 # ------------------------------------------------------------------ value
 
-def value(d):
+def value(d, _raw=False):
     c = d["c"]
     if c == "NumpyArray":
         a = np_view(d)
         if d.get("scalar") or len(d["shape"]) == 0:
             return scalar_value(a[()] if a.shape == () else a.reshape(-1)[0], a.dtype)
+        if not _raw and len(d["shape"]) == 1 and d["dtype"] == "uint8":
+            # a bare character array is one string taken out of a string list (the library's char/byte behaviour)
+            mark = param(d, "__array__")
+            if mark == "char":
+                return bytes(bytearray(a.tolist())).decode("utf-8", "surrogateescape")
+            if mark == "byte":
+                return bytes(bytearray(a.tolist()))
         return _np_tolist(a)
     if c == "EmptyArray":
         return []
@@ -347,17 +354,17 @@ def value(d):
         return None
     arr = param(d, "__array__")
     if c == "RegularArray":
-        cv = value(d["content"])
+        cv = value(d["content"], _raw=arr in ("string", "bytestring"))
         n, size = length(d), d["size"]
         out = [cv[i * size:(i + 1) * size] for i in range(n)]
         return _stringify(out, arr)
     if c == "ListOffsetArray":
-        cv = value(d["content"])
+        cv = value(d["content"], _raw=arr in ("string", "bytestring"))
         o = idx(d["offsets"])
         out = [cv[o[i]:o[i + 1]] if o[i] != o[i + 1] else [] for i in range(len(o) - 1)]
         return _stringify(out, arr)
     if c == "ListArray":
-        cv = value(d["content"])
+        cv = value(d["content"], _raw=arr in ("string", "bytestring"))
         a, b = idx(d["starts"]), idx(d["stops"])
         out = [cv[a[i]:b[i]] if a[i] != b[i] else [] for i in range(len(a))]
         return _stringify(out, arr)
